@@ -330,6 +330,20 @@ Definition outbound (sites : list gate) (m : rules) (p : Z) (addrs : list (optio
   (if has_gate sites GPeerDial then [PvPeerDial p ok] else []) ++
   (if ok then dial_addrs sites m p 0 addrs else []).
 
+(* the options a dial context can carry (core/network/context.go).  All of
+   them go through the same gates: WithForceDirectDial only removes relayed
+   addresses AFTER filterKnownUndialables (addrsForDial) and skips the
+   backoff; WithSimultaneousConnect changes the role inside the transport;
+   WithAllowLimitedConn only widens which existing connection is acceptable;
+   WithNoDial (NewStream) never dials. *)
+Inductive dialopt := OPlain | OForceDirect | OSimConnect | OAllowLimited | ONoDial.
+
+Definition outbound_opt (sites : list gate) (o : dialopt) (m : rules) (p : Z) (addrs : list (option ip)) : list pev :=
+  match o with
+  | ONoDial => []
+  | _ => outbound sites m p addrs
+  end.
+
 (* inbound: accept -> handshake -> secured -> upgraded *)
 Definition inbound (sites : list gate) (m : rules) (p : Z) (a : option ip) : list pev :=
   let ok := if has_gate sites GAccept then intercept_accept m a else true in
